@@ -126,8 +126,13 @@ Proof.
 Qed.
 
 (* ------------------------------------------------------------------ (2) no timeout due at the last check *)
-(* the time slice of a parked process does not park it with a timeout already due (select machine, C05) *)
+(* a time slice that PARKS its process (by a pass over the sources that found none ready, or by the
+   Await action) does not park it with a timeout already due (select machine, C05:
+   never_parks_with_due_timeout).  A slice that ends RUNNABLE may well end with a due timeout
+   (`! [0]` at quantum 1 after the initialising step; `! [&f, 0]` while the filter f runs): the
+   premise says nothing about those. *)
 Definition time_honest (now : nat) (d : did) : Prop :=
+  (d_park d = true \/ exists ts, d_act d = Some (AAwait ts)) ->
   forall s, d_sel d = Some s -> match sl_start s with
                                 | Some t0 => forallb (fun dl => negb (dl <=? now - t0)) (sl_timeouts s) = true
                                 | None => True end.
@@ -586,7 +591,7 @@ Proof.
   assert (P: parked_ok (not_due now) (n_w nd')).
   { eapply node_step_parked; [apply ext_not_due|exact HI|exact H| |].
     - intros w1 ev1 w2 _ E. eapply expire_not_due; exact E.
-    - intros q pr mail' pr' _ _ _ Es. unfold not_due. rewrite Es. specialize (Hh). unfold time_honest in Hh.
+    - intros q pr mail' pr' _ Hreason _ Es. unfold not_due. rewrite Es. unfold time_honest in Hh. specialize (Hh Hreason).
       destruct (d_sel (o_did o)) as [s|]; [|exact I]. specialize (Hh s eq_refl). destruct (sl_start s); [|exact I].
       clear -Hh. induction (sl_timeouts s) as [|d l IH]; simpl in *; [reflexivity|].
       apply andb_true_iff in Hh. destruct Hh as (A&B). apply Bool.negb_true_iff in A. rewrite A. simpl. apply IH; exact B. }
